@@ -23,6 +23,7 @@ fn same_matrix(a: &Mat4x4<NdcToScreen>, b: &Mat4x4<NdcToScreen>) -> bool {
 // @ob props=C08,C02 tier=quick kind=P cfg=core-std timeout=900
 // @fn Camera::new ; Camera::viewport ; Rect::intersect
 // @clause a camera restricts drawing to the intersection of the requested viewport with its frame: for every frame up to 4096^2 and every non-inverted request (corners up to 8192, any side possibly unbounded) that starts inside or on the edge of the frame, viewport() never reaches unreachable!(), dims become the intersection's extents, the NDC->screen matrix is the viewport matrix of the intersection, and the intersection lies inside the frame; Camera::new covers the whole frame
+#[cfg(not(verif_skip_cam_viewport_is_intersection))]
 #[kani::proof]
 #[kani::unwind(6)]
 fn cam_viewport_is_intersection() {
@@ -47,6 +48,7 @@ fn cam_viewport_is_intersection() {
 // @ob props=C08 tier=quick kind=P cfg=core-std timeout=900
 // @fn Camera::perspective ; Camera::orthographic
 // @clause Camera::perspective builds the projection with aspect ratio width/height of its current viewport dims (and the same focal ratio and depth range); Camera::orthographic installs the orthographic matrix of the given box; neither touches dims or the viewport matrix
+#[cfg(not(verif_skip_cam_projection_uses_viewport_aspect))]
 #[kani::proof]
 #[kani::unwind(6)]
 fn cam_projection_uses_viewport_aspect() {
